@@ -58,9 +58,8 @@ def node_at(fs, comps):
     return cur
 
 
-def resolve(fs, comps, follow_last=True):
-    """The node that the path denotes (intermediate symlinks always followed; the last one iff follow_last).
-    None if the path does not exist (dangling link, component of a regular file, loop, leaves the model)."""
+def _walk(fs, comps, follow_last):
+    """-> (node | None, link budget exhausted?)"""
     cur = fs
     cur_path = []
     stack = list(reversed(list(comps)))
@@ -70,25 +69,33 @@ def resolve(fs, comps, follow_last=True):
         if name in ('', '.'):
             continue
         if cur['t'] != 'd':
-            return None
+            return None, False
         if name == '..':
             if not cur_path:
-                return None  # would leave the modelled file system
+                return None, False  # would leave the modelled file system
             cur_path.pop()
             cur = node_at(fs, cur_path)
             continue
         child = cur['c'].get(name)
         if child is None:
-            return None
+            return None, False
         if child['t'] == 'l' and (stack or follow_last):
             budget -= 1
-            if budget < 0 or child['to'].startswith('/'):
-                return None
+            if budget < 0:
+                return None, True
+            if child['to'].startswith('/'):
+                return None, False
             stack.extend(reversed(child['to'].split('/')))
             continue
         cur = child
         cur_path.append(name)
-    return cur
+    return cur, False
+
+
+def resolve(fs, comps, follow_last=True):
+    """The node that the path denotes (intermediate symlinks always followed; the last one iff follow_last).
+    None if the path does not exist (dangling link, component of a regular file, loop, leaves the model)."""
+    return _walk(fs, comps, follow_last)[0]
 
 
 def canonical(fs, comps):
@@ -140,6 +147,8 @@ def has_link_loop(fs):
         for name, ch in node['c'].items():
             p = path + [name]
             if ch['t'] == 'l':
+                if _walk(fs, p, True)[1]:
+                    return True  # cycle of links (ELOOP)
                 tgt = canonical(fs, p)
                 if tgt is not None:
                     tn = node_at(fs, tgt)
@@ -735,10 +744,6 @@ def _int(n):
     return str(n)
 
 
-def _simple_fm(m):
-    return m[0] in ('type', 'name', 'stem', 'suffix', 'suffixes', 'path', 'const')
-
-
 def render_tm(m):
     k = m[0]
     if k == 'equals':
@@ -774,9 +779,10 @@ def render_fm(m, ind=''):
         op = ' && ' if k == 'and' else ' || '
         lines = ['']
         for i, x in enumerate(m[1]):
-            part = atom_fm(x, ind) if (x[0] in ('and', 'or') or not _simple_fm(x)) and x[0] in ('and', 'or') \
-                else render_fm(x, ind)
-            if x[0] in ('dc', 'contents', 'not') and i < len(m[1]) - 1:
+            part = render_fm(x, ind)
+            if x[0] in ('and', 'or'):
+                part = paren(part, ind)
+            elif x[0] in ('dc', 'contents', 'not') and i < len(m[1]) - 1:
                 # keep an operand whose own argument is an open-ended expression unambiguous
                 part = paren(part, ind)
             lines[-1] += ('' if i == 0 else op) + part[0]
@@ -882,33 +888,3 @@ def render_exists(path_text, negated, m):
         return [head]
     body = render_fm(m, '')
     return [head + ' : ' + body[0]] + body[1:]
-
-
-# ---- AST features (for class keys) ---------------------------------------------------------------------------
-def features(m, acc=None):
-    acc = set() if acc is None else acc
-    if not isinstance(m, (list, tuple)) or not m:
-        return acc
-    k = m[0]
-    if k in ('name', 'stem', 'suffix', 'suffixes', 'path'):
-        acc.add('%s-%s' % (k, m[1]))
-    elif k == 'matches':
-        acc.add('matches-full' if m[1] else 'matches')
-        for name, fmx in m[2]:
-            if fmx is not None:
-                features(fmx, acc)
-    elif k == 'dc':
-        acc.add('dc-rec' if m[1] is not None else 'dc')
-        features(m[2], acc)
-    elif k in ('and', 'or'):
-        acc.add(k)
-        for x in m[1]:
-            features(x, acc)
-    elif k == 'type':
-        acc.add('type-' + m[1])
-    else:
-        acc.add(k)
-        for x in m[1:]:
-            if isinstance(x, (list, tuple)):
-                features(x, acc)
-    return acc
